@@ -49,7 +49,8 @@ OPTSETS = [
     ({'stop_method': 'rilling'}, {'interp_method': 'pchip'}, {'mag_pad_opts': {'mode': 'mean', 'stat_length': 2}}),
 ]
 POOLED_SETS = (2, 7, 8, 10, 17)
-VARIANTS = ('sift', 'mask_sift', 'ensemble_sift', 'complete_ensemble_sift', 'second_sift', 'second_mask')
+VARIANTS = ('sift', 'mask_sift', 'ensemble_sift', 'complete_ensemble_sift', 'second_sift', 'second_mask',
+            'ensemble_sift:flip', 'complete_ensemble_sift:flip')
 ROUTES = ('kwargs', 'config', 'get_func')
 SIGNALS = [('tone', 64, 2, 'lin', 'none'), ('tone', 32, 3, 'none', 'am'), ('noise', 64, 0, 'none', 'none')]
 CAP = 3
@@ -141,6 +142,7 @@ def cases(tier, seed):
         for oi in b['pooled_sets']:
             for rgs in enum.restricted_growth_strings(3, 2):
                 yield ('ensemble_sift', si, oi, 'kwargs', (rgs,), seed)
+                yield ('ensemble_sift:flip', si, oi, 'config', (rgs,), seed)
             for r1 in enum.restricted_growth_strings(3, 2):
                 for r2 in enum.restricted_growth_strings(3, 2):
                     yield ('mask_sift', si, oi, 'config', (r1, r2), seed)
@@ -216,18 +218,18 @@ def pipe_member(X, noise, scaling, mode, cap, o):
     return (a[:, :k] + b[:, :k]) / 2
 
 
-def pipe_ceemd(x, E, sg, o, seed_state, cap):
+def pipe_ceemd(x, E, sg, o, seed_state, cap, mode='single'):
     """complete-ensemble pipeline assembled from sift pipelines, replaying the parent's noise matrix."""
     X = np.asarray(x, dtype=float).reshape(len(x), 1)
     scaling = X.std() * sg
     np.random.set_state(seed_state)
     noise = np.random.random_sample((X.shape[0], E)) * scaling
-    imf = np.mean([pipe_member(X, noise[:, i, None], scaling, 'single', 1, o) for i in range(E)], axis=0)
+    imf = np.mean([pipe_member(X, noise[:, i, None], scaling, mode, 1, o) for i in range(E)], axis=0)
     noise = noise - np.array([pipe_sift(noise[:, i], *o, cap=1)[:, 0] for i in range(E)]).T
     layer = 1
     while layer < cap:
         r = X - imf.sum(axis=1)[:, None]
-        nxt = np.mean([pipe_member(r, noise[:, i, None], None, 'single', 1, o) for i in range(E)], axis=0)
+        nxt = np.mean([pipe_member(r, noise[:, i, None], None, mode, 1, o) for i in range(E)], axis=0)
         imf = np.concatenate((imf, nxt), axis=1)
         noise = noise - np.array([pipe_sift(noise[:, i], *o, cap=1)[:, 0] for i in range(E)]).T
         layer += 1
@@ -253,6 +255,10 @@ def call_variant(v, x, o, route, nproc):
         args.update(mask_freqs=np.array([0.2, 0.08, 0.03]), nphases=2)
         return S.sift_second_layer(IA.copy(), sift_func=S.mask_sift, sift_args=args), IA
     extra = {'max_imfs': CAP}
+    flip = v.endswith(':flip')
+    v = v.split(':')[0]
+    if flip:
+        extra['noise_mode'] = 'flip'
     if v == 'mask_sift':
         extra.update(nphases=3, nprocesses=nproc, mask_freqs='zc')
     elif v in ('ensemble_sift', 'complete_ensemble_sift'):
@@ -309,6 +315,7 @@ def check_case(case):
             recs.extend(e['trace'])
             in_workers += len(e['trace'])
     cfg = aux if not v.startswith('second') else None
+    vbase = v.split(':')[0]
     io, eo, xo = effective_opts(o, cfg)
     # ---- oracle 1: call tree
     counts = {'get_next_imf': 0, 'interp_envelope': 0, 'get_padded_extrema': 0}
@@ -357,7 +364,7 @@ def check_case(case):
     popts = (o[0], o[1], o[2]) if cfg is None else (io, eo, xo)
     try:
         with forkpool.installed(forkpool.SerialMP()):
-            want, default = expected_output(v, x, popts, recs, state, aux)
+            want, default = expected_output(vbase, x, popts, recs, state, aux, flip=v.endswith(':flip'))
     except Exception as e:
         return Outcome(cls='pipeline-error', viols=viols + [('harness:pipeline', '%s: explicit pipeline raised %r' % (tag, e))])
     got = np.asarray(out[0] if isinstance(out, tuple) else out)
@@ -370,7 +377,7 @@ def check_case(case):
                    viols=viols, nontrivial=bool(effect))
 
 
-def expected_output(v, x, o, recs, state, aux):
+def expected_output(v, x, o, recs, state, aux, flip=False):
     """-> (expected output with options o, expected output with default options)"""
     X = x[:, None]
     none = (None, None, None)
@@ -387,7 +394,8 @@ def expected_output(v, x, o, recs, state, aux):
             res.append(np.mean([a[:, :k] for a in mem], axis=0))
         return res[0], res[1]
     if v == 'complete_ensemble_sift':
-        return pipe_ceemd(x, 2, 0.3, o, state, 2), pipe_ceemd(x, 2, 0.3, none, state, 2)
+        m_ = 'flip' if flip else 'single'
+        return pipe_ceemd(x, 2, 0.3, o, state, 2, mode=m_), pipe_ceemd(x, 2, 0.3, none, state, 2, mode=m_)
     IA = aux
     res = []
     for oo in (o, none):
